@@ -112,23 +112,23 @@ impl std::str::FromStr for RenNrenCo2 {
         let s = s.trim().trim_matches(|c| c == '(' || c == ')');
         if s.starts_with('{') {
             let mut res = RenNrenCo2::default();
-            s.trim_matches(|c| c == '{' || c == '}')
+            for v in s
+                .trim_matches(|c| c == '{' || c == '}')
                 .split(',')
                 .map(|s| s.splitn(2, ':').map(str::trim).collect::<Vec<&str>>())
-                .for_each(|v| {
-                    let mut it = v.iter();
-                    let (key, val) = match (it.next(), it.next()) {
-                        (Some(k), Some(v)) => (*k, *v),
-                        _ => ("Error", "0.0"),
-                    };
-                    //let haskey = ["ren", "nren", "co2"].contains(&key);
-                    match (key, f32::from_str(val)) {
-                        ("ren", Ok(v)) => res.ren = v,
-                        ("nren", Ok(v)) => res.nren = v,
-                        ("co2", Ok(v)) => res.co2 = v,
-                        _ => println!("Algo malo pasa con {}", key),
-                    }
-                });
+            {
+                let mut it = v.iter();
+                let (key, val) = match (it.next(), it.next()) {
+                    (Some(k), Some(v)) => (*k, *v),
+                    _ => return Err(EpbdError::ParseError(s.into())),
+                };
+                match (key, f32::from_str(val)) {
+                    ("ren", Ok(v)) => res.ren = v,
+                    ("nren", Ok(v)) => res.nren = v,
+                    ("co2", Ok(v)) => res.co2 = v,
+                    _ => return Err(EpbdError::ParseError(s.into())),
+                }
+            }
             Ok(res)
         } else {
             let vals = s
